@@ -23,23 +23,24 @@ type Clause struct {
 }
 
 type FuncContract struct {
-	Pkg      string // import path
-	Name     string // ToInt32, (*SourceMap).Find, rebuildImpl$1
-	Arith    string // "bv" | "int"
-	Safety   bool
-	NoOvf    bool // arith int without overflow obligations (assumption)
-	Trusted  bool // contract assumed, body not verified (assumption, listed)
-	Clauses  []*Clause
-	Props    []string
-	Mods     []string // explicit modifies (heap map patterns); nil = inferred
-	HasMods  bool
-	Opts     map[string]string
-	File     string
-	Line     int
-	Sites    []*SiteClause
-	Ghosts   []string
-	Timeout  int
-	Unfold   int
+	Pkg     string // import path
+	Name    string // ToInt32, (*SourceMap).Find, rebuildImpl$1
+	Arith   string // "bv" | "int"
+	Safety  bool
+	NoOvf   bool // arith int without overflow obligations (assumption)
+	Trusted bool // contract assumed, body not verified (assumption, listed)
+	Clauses []*Clause
+	Props   []string
+	Mods    []string // explicit modifies (heap map patterns); nil = inferred
+	HasMods bool
+	Opts    map[string]string
+	File    string
+	Line    int
+	Sites   []*SiteClause
+	Ghosts  []string
+	Timeout int
+	Unfold  int
+	Witness []*Clause
 }
 
 type SiteClause struct {
@@ -81,14 +82,14 @@ type Directive struct {
 }
 
 type ContractSet struct {
-	Funcs  map[string]*FuncContract // key pkg + "." + name
-	Order  []string
-	Specs  map[string]*SpecFunc // by name (global namespace)
+	Funcs     map[string]*FuncContract // key pkg + "." + name
+	Order     []string
+	Specs     map[string]*SpecFunc // by name (global namespace)
 	SpecOrder []string
-	Axioms []*Axiom
-	Dirs   []*Directive
-	Files  []string
-	Notes  []string
+	Axioms    []*Axiom
+	Dirs      []*Directive
+	Files     []string
+	Notes     []string
 }
 
 func NewContractSet() *ContractSet {
@@ -102,7 +103,7 @@ var clauseKeywords = map[string]bool{
 	"func": true, "spec": true, "axiom": true, "lemma": true, "view": true, "protect": true,
 	"constglobal": true, "arith": true, "requires": true, "ensures": true, "modifies": true,
 	"decreases": true, "loop": true, "site": true, "ghost": true, "set": true, "safety": true,
-	"trusted": true, "prop": true, "nooverflow": true, "opt": true, "timeout": true, "import": true,
+	"trusted": true, "prop": true, "nooverflow": true, "opt": true, "timeout": true, "import": true, "witness": true,
 	"pure": true, "frame": true, "order": true, "gate": true, "effect": true, "equal": true, "unfold": true,
 }
 
@@ -271,6 +272,16 @@ func (cs *ContractSet) LoadContractFile(path string, importPath string) error {
 				}
 			case "ghost":
 				cur.Ghosts = append(cur.Ghosts, rest)
+			case "witness":
+				m := reLabel.FindStringSubmatch(rest)
+				if m == nil {
+					return fmt.Errorf("%s: witness needs 'name: expr'", where)
+				}
+				e, err := parse(m[2])
+				if err != nil {
+					return err
+				}
+				cur.Witness = append(cur.Witness, &Clause{Kind: "witness", Label: m[1], Text: m[2], E: e, Line: st.line})
 			case "requires", "ensures", "decreases", "assert":
 				cl := &Clause{Kind: kw, Loop: -1, Line: st.line}
 				txt := rest
